@@ -1,6 +1,6 @@
 (* Dispatcher: one protocol line in, one observation line out.  This is the function the
    extracted driver (ocaml/driver.ml) and the in-Coq cross-check (Eval vm_compute) both run. *)
-From OA Require Import Bytes Proto ErrorCodes DevicePoll DeviceKinds FormUrlencoded Base64 Sha256 Requests Pkce AuthUrl ReqSpec Secrets ClientCfg.
+From OA Require Import Bytes Proto ErrorCodes DevicePoll DeviceKinds FormUrlencoded Base64 Sha256 Requests Pkce AuthUrl ReqSpec Secrets ClientCfg UrlTypes Json Endpoint Serde Http.
 From Coq Require Import ZArith.
 
 Definition run_c14 (ws : list bytes) : bytes :=
@@ -55,7 +55,7 @@ Definition render_event (e : event) : bytes :=
   | ESleep d => "S"%char :: dec_of_N d
   end.
 
-Definition render_outcome (o : outcome) : bytes :=
+Definition render_outcome (o : DevicePoll.outcome) : bytes :=
   match o with
   | OFinished k =>
       match nth_error kinds (N.to_nat k) with
@@ -63,7 +63,7 @@ Definition render_outcome (o : outcome) : bytes :=
       | None => s2b "BADKIND"
       end
   | OExpired => render_result (RServer c_expired_token (Some expired_msg))
-  | OOther => render_result ROtherErr
+  | DevicePoll.OOther => render_result ROtherErr
   | OStuck => s2b "STUCK"
   end.
 
@@ -586,6 +586,201 @@ Definition run_cfg (ws : list bytes) : bytes :=
   | _ => bad_case
   end.
 
+(* ---------------------------------------------------------------- C18: URL value types *)
+
+Definition run_urlt (ws : list bytes) : bytes :=
+  match ws with
+  | [_ty; s; oracle] =>
+      match untok_bytes s, untok_opt oracle with
+      | Some s, Some o =>
+          let parse := fun x : bytes => if bytes_eqb x s then o else None in
+          match url_new parse s with
+          | None =>
+              unwords [s2b "invalid";
+                       s2b "de=" ++ match url_deserialize parse s with None => s2b "err" | Some _ => s2b "ok" end]
+          | Some v =>
+              let de := match url_deserialize parse (url_serialize v) with
+                        | Some v' => join [","%char] [s2b "ok"; tok_bytes (uv_url v'); tok_bool (url_eqb v v')]
+                        | None => s2b "err"
+                        end in
+              let f := url_from_url (uv_url v) in
+              unwords [s2b "ok"; tok_bytes (url_display v); tok_bytes (url_display v);
+                       tok_bytes (url_serialize v); tok_bytes (uv_url v); s2b "de=" ++ de;
+                       s2b "fromurl=" ++ tok_bytes (url_display f) ++ ","%char :: tok_bytes (uv_url f)]
+          end
+      | _, _ => bad_case
+      end
+  | _ => bad_case
+  end.
+
+Definition render_cmp (c : comparison) : bytes :=
+  match c with Eq => s2b "eq" | Lt => s2b "lt" | Gt => s2b "gt" end.
+
+Definition run_urlp (ws : list bytes) : bytes :=
+  match ws with
+  | [_ty; a; b] =>
+      match untok_bytes a, untok_bytes b with
+      | Some a, Some b =>
+          let va := {| uv_url := []; uv_text := a |} in
+          let vb := {| uv_url := []; uv_text := b |} in
+          unwords [s2b "eq=" ++ tok_bool (url_eqb va vb); s2b "cmp=" ++ render_cmp (url_cmp va vb);
+                   s2b "rcmp=" ++ render_cmp (url_cmp vb va);
+                   s2b "hasheq=" ++ tok_bool (url_eqb va vb)]
+      | _, _ => bad_case
+      end
+  | _ => bad_case
+  end.
+
+(* ---------------------------------------------------------------- responses: C05 C06 C13 C14 C15 C16 C19 *)
+
+Definition tok_optlist (o : option (list bytes)) : bytes :=
+  match o with None => ["-"%char] | Some l => tok_list l end.
+Definition tok_optZ (o : option Z) : bytes :=
+  match o with None => ["-"%char] | Some z => dec_of_Z z end.
+Definition colon (l : list bytes) : bytes := join [":"%char] l.
+
+Definition render_tt (t : token_type) : bytes :=
+  match t with
+  | Bearer => s2b "Bearer" | Mac => s2b "Mac"
+  | TExtension s => s2b "Ext." ++ tok_bytes s
+  end.
+Definition render_ext (e : ext) : bytes :=
+  tok_opt (ext_id_token e) ++ "/"%char :: tok_optN (ext_num e).
+Definition render_unit (_ : unit) : bytes := ["-"%char].
+
+Definition render_token {EF} (ref_ : EF -> bytes) (t : token_resp EF) : bytes :=
+  colon [s2b "tok"; tok_bytes (tr_access t); render_tt (tr_type t); tok_optN (tr_expires t);
+         tok_opt (tr_refresh t); tok_optlist (tr_scopes t); ref_ (tr_extra t)].
+
+Definition render_introspection {EF} (ref_ : EF -> bytes) (r : introspection EF) : bytes :=
+  colon [s2b "int"; tok_bool (ir_active r); tok_optlist (ir_scopes r); tok_opt (ir_client_id r);
+         tok_opt (ir_username r);
+         match ir_token_type r with None => ["-"%char] | Some t => render_tt t end;
+         tok_optZ (ir_exp r); tok_optZ (ir_iat r); tok_optZ (ir_nbf r); tok_opt (ir_sub r);
+         tok_optlist (ir_aud r); tok_opt (ir_iss r); tok_opt (ir_jti r); ref_ (ir_extra r)].
+
+Definition render_device_auth {EF} (ref_ : EF -> bytes) (d : device_auth EF) : bytes :=
+  colon [s2b "dev"; tok_bytes (da_device_code d); tok_bytes (da_user_code d);
+         tok_bytes (da_verification_uri d); tok_opt (da_uri_complete d);
+         dec_of_N (da_expires d); dec_of_N (da_interval d); ref_ (da_extra d)].
+
+Definition render_error {T} (as_ref : T -> bytes) (e : error_response T) : bytes :=
+  unwords [s2b "server"; tok_bytes (as_ref (er_error e)); tok_opt (er_description e);
+           tok_opt (er_uri e); tok_bytes (display_error as_ref e);
+           tok_bytes (json_print (encode_error as_ref e))].
+
+Definition render_outcome_gen {T E} (rt : T -> bytes) (re : E -> bytes)
+           (o : Endpoint.outcome T E unit) : bytes :=
+  match o with
+  | Endpoint.OSuccess v => rt v
+  | Endpoint.OServer e => re e
+  | Endpoint.OParse b => s2b "parse " ++ tok_bytes b
+  | Endpoint.OOther _ => s2b "other"
+  | Endpoint.ORequest _ => s2b "request"
+  end.
+
+Definition ok_val (r j : bytes) : bytes := unwords [s2b "ok"; r; tok_bytes j].
+
+Definition url_table (t : bytes) : option (bytes -> bool) :=
+  option_map (fun l s => mem_bytes s l) (untok_list t).
+
+(* HTTP variant kind ef status ct body urltab *)
+Definition run_http (ws : list bytes) : bytes :=
+  match ws with
+  | [_variant; kind; efk; status; ct; body; urltab] =>
+      match N_of_dec status, untok_opt ct, untok_bytes body, url_table urltab with
+      | Some status, Some ct, Some body, Some url_ok =>
+          let use_ext := is_kw "X" efk in
+          let calls := s2b " calls=1" in
+          (if N.eqb status 0 then s2b "request"
+           else if is_kw "code" kind || is_kw "refresh" kind || is_kw "password" kind || is_kw "cc" kind then
+             if use_ext then
+               render_outcome_gen
+                 (fun v => ok_val (render_token render_ext v) (json_print (encode_token ef_ext v)))
+                 (render_error basic_as_ref) (token_outcome ef_ext status ct body)
+             else
+               render_outcome_gen
+                 (fun v => ok_val (render_token render_unit v) (json_print (encode_token ef_empty v)))
+                 (render_error basic_as_ref) (token_outcome ef_empty status ct body)
+           else if is_kw "introspect" kind then
+             if use_ext then
+               render_outcome_gen
+                 (fun v => ok_val (render_introspection render_ext v) (json_print (encode_introspection ef_ext v)))
+                 (render_error basic_as_ref) (introspection_outcome ef_ext status ct body)
+             else
+               render_outcome_gen
+                 (fun v => ok_val (render_introspection render_unit v) (json_print (encode_introspection ef_empty v)))
+                 (render_error basic_as_ref) (introspection_outcome ef_empty status ct body)
+           else if is_kw "devauth" kind then
+             if use_ext then
+               render_outcome_gen
+                 (fun v => ok_val (render_device_auth render_ext v) (json_print (encode_device_auth ef_ext v)))
+                 (render_error basic_as_ref) (device_auth_outcome ef_ext url_ok status ct body)
+             else
+               render_outcome_gen
+                 (fun v => ok_val (render_device_auth render_unit v) (json_print (encode_device_auth ef_empty v)))
+                 (render_error basic_as_ref) (device_auth_outcome ef_empty url_ok status ct body)
+           else if is_kw "revoke" kind then
+             match revocation_outcome status body with
+             | None => s2b "ok unit"
+             | Some o => render_outcome_gen (fun _ : unit => s2b "ok unit") (render_error revocation_as_ref) o
+             end
+           else bad_case) ++ calls
+      | _, _, _, _ => bad_case
+      end
+  | _ => bad_case
+  end.
+
+(* DECODE family ef text urltab : serde_json::from_slice on the text, outside any HTTP flow *)
+Definition run_decode (ws : list bytes) : bytes :=
+  match ws with
+  | [fam; efk; text; urltab] =>
+      match untok_bytes text, url_table urltab with
+      | Some text, Some url_ok =>
+          let use_ext := is_kw "X" efk in
+          let err := s2b "err" in
+          if is_kw "token" fam then
+            if use_ext then
+              match from_body (decode_token ef_ext) text with
+              | Some v => ok_val (render_token render_ext v) (json_print (encode_token ef_ext v))
+              | None => err end
+            else
+              match from_body (decode_token ef_empty) text with
+              | Some v => ok_val (render_token render_unit v) (json_print (encode_token ef_empty v))
+              | None => err end
+          else if is_kw "introspection" fam then
+            if use_ext then
+              match from_body (decode_introspection ef_ext) text with
+              | Some v => ok_val (render_introspection render_ext v) (json_print (encode_introspection ef_ext v))
+              | None => err end
+            else
+              match from_body (decode_introspection ef_empty) text with
+              | Some v => ok_val (render_introspection render_unit v) (json_print (encode_introspection ef_empty v))
+              | None => err end
+          else if is_kw "device" fam then
+            if use_ext then
+              match from_body (decode_device_auth url_ok ef_ext) text with
+              | Some v => ok_val (render_device_auth render_ext v) (json_print (encode_device_auth ef_ext v))
+              | None => err end
+            else
+              match from_body (decode_device_auth url_ok ef_empty) text with
+              | Some v => ok_val (render_device_auth render_unit v) (json_print (encode_device_auth ef_empty v))
+              | None => err end
+          else if is_kw "err-basic" fam then
+            match from_body (decode_error basic_from_str) text with
+            | Some e => render_error basic_as_ref e | None => err end
+          else if is_kw "err-device" fam then
+            match from_body (decode_error device_from_str) text with
+            | Some e => render_error device_as_ref e | None => err end
+          else if is_kw "err-revocation" fam then
+            match from_body (decode_error revocation_from_str) text with
+            | Some e => render_error revocation_as_ref e | None => err end
+          else bad_case
+      | _, _ => bad_case
+      end
+  | _ => bad_case
+  end.
+
 Definition run_line (line : bytes) : bytes :=
   match words line with
   | p :: ws =>
@@ -609,6 +804,10 @@ Definition run_line (line : bytes) : bytes :=
       else if is_kw "SECEQ" p then run_seceq ws
       else if is_kw "ECHOOK" p then s2b "ok"
       else if is_kw "CFG" p then run_cfg ws
+      else if is_kw "URLT" p then run_urlt ws
+      else if is_kw "HTTP" p then run_http ws
+      else if is_kw "DECODE" p then run_decode ws
+      else if is_kw "URLP" p then run_urlp ws
       else if is_kw "REQM2" p then monitor_req false ws
       else if is_kw "AUTHURLM" p then monitor_authurl ws
       else if is_kw "POLLM" p then monitor_poll ws
